@@ -70,7 +70,15 @@ func registerTime(e *Engine) {
 	}
 	e.Intr["(time.Time).UnixNano"] = func(c *Call) []*State { return c.Return(timeExt(c.Args[0])) }
 	e.Intr["(time.Time).Unix"] = func(c *Call) []*State {
-		return c.Return(App("time_unix_sec", SBV, 64, timeExt(c.Args[0])))
+		t := timeExt(c.Args[0])
+		if t.Const {
+			return c.Return(BVC(uint64(time.Unix(0, t.Signed()).Unix()), 64))
+		}
+		DeclareFun("time_unix_sec", "(declare-fun |time_unix_sec| ((_ BitVec 64)) (_ BitVec 64))")
+		u := App("time_unix_sec", SBV, 64, t)
+		// seconds since the epoch of a positive instant are positive (no file is older than 1970)
+		c.St.Assume(Implies(BVSlt(BVC(1000000000, 64), t), BVSlt(BVC(0, 64), u)))
+		return c.Return(u)
 	}
 	e.Intr["(time.Time).Truncate"] = func(c *Call) []*State {
 		d := c.argTerm(1)
@@ -102,6 +110,33 @@ func registerTime(e *Engine) {
 			return c.Return(StrC(time.Unix(0, t.Signed()).UTC().Format(l.S)))
 		}
 		return c.Return(c.E.timeFormat(c.St, timeExt(c.Args[0]), c.argTerm(1)))
+	}
+	e.Intr["(time.Time).AddDate"] = func(c *Call) []*State {
+		t := timeExt(c.Args[0])
+		y, m, d := c.argTerm(1), c.argTerm(2), c.argTerm(3)
+		if !y.Const || !m.Const || !d.Const {
+			panic(unsupported("AddDate with symbolic arguments"))
+		}
+		if t.Const {
+			r := time.Unix(0, t.Signed()).UTC().AddDate(int(y.Signed()), int(m.Signed()), int(d.Signed()))
+			return c.Return(timeVal(BVC(uint64(r.UnixNano()), 64)))
+		}
+		if y.Signed() != 0 || m.Signed() != 0 {
+			panic(unsupported("AddDate of years/months on a symbolic instant"))
+		}
+		return c.Return(timeVal(BVAdd(t, BVC(uint64(d.Signed()*86400*1000000000), 64))))
+	}
+	e.Intr["time.Date"] = func(c *Call) []*State {
+		var a [7]int
+		for i := 0; i < 7; i++ {
+			t := c.argTerm(i)
+			if !t.Const {
+				panic(unsupported("time.Date with symbolic fields"))
+			}
+			a[i] = int(t.Signed())
+		}
+		d := time.Date(a[0], time.Month(a[1]), a[2], a[3], a[4], a[5], a[6], time.UTC)
+		return c.Return(timeVal(BVC(uint64(d.UnixNano()), 64)))
 	}
 	e.Intr["time.ParseInLocation"] = func(c *Call) []*State {
 		l, v := c.argTerm(0), c.argTerm(1)
